@@ -23,6 +23,7 @@ META = {
                     "tolerance 1e-9*(1+sum|terms|)", "events strictly inside cells/bins: reference gridding known by construction"],
     "deciding": ["trace:observed_statistic", "trace:test_distribution[j]~simulated_catalog[j]"],
 }
+META["added"] = 'Added: per-simulation prescribed-count clause, low-rate L-tests (Poisson draw often 0), tiny-rate bins holding events, catalogs gridded on another region before the test, shared object histories / layouts from gridcases (regridded or in-place re-ordered catalogs, Fortran / transposed tables).'
 MANIFEST = {
     "technique": "boundary event log around the real _simulate_catalog + offline trace checker aligning test_distribution[j] with simulated catalog j; independent log-pmf oracle on observed statistic of the four public tests",
     "level_text": "For each generated forecast/catalog pair the four public Poisson tests run for real; the observed statistic and every test-distribution entry (aligned with the recorded simulated catalogs) are compared with an independent Poisson log-pmf sum; -inf iff an event lies in a zero-rate bin is decided exactly.",
